@@ -648,3 +648,6 @@ func runPlan(p Plan) (vk.Outcome, error) {
 func TestIterUnderMutation(t *testing.T) {
 	vk.Run(t, suite, "iterplan", 3000, genPlan, runPlan)
 }
+
+// FuzzIterUnderMutation: native coverage-guided fuzzing of the same property (thorough tier only).
+func FuzzIterUnderMutation(f *testing.F) { vk.Fuzz(f, suite, "iterplan", genPlan, runPlan) }
